@@ -88,7 +88,7 @@ func solveAll(obls []*Obligation, dir string, timeout int, workers int) {
 
 func solveOne(o *Obligation, dir string, timeout int) {
 	file := oblFile(dir, o)
-	txt := o.SMT + "(get-model)\n"
+	txt := o.SMT
 	if err := os.WriteFile(file, []byte(txt), 0o644); err != nil {
 		o.Status = "error"
 		o.Model = err.Error()
@@ -123,4 +123,69 @@ func truncate(s string, n int) string {
 		return s
 	}
 	return s[:n] + "..."
+}
+
+// parseValues pairs the watch list of an obligation with the values printed by (get-value ...).
+func parseValues(o *Obligation) [][2]string {
+	out := o.Model
+	i := strings.Index(out, "((")
+	if i < 0 || len(o.Watch) == 0 {
+		return nil
+	}
+	// split the top-level list into (term value) pairs
+	body := out[i+1:]
+	var pairs []string
+	depth := 0
+	start := -1
+	for k := 0; k < len(body); k++ {
+		switch body[k] {
+		case '(':
+			if depth == 0 {
+				start = k
+			}
+			depth++
+		case ')':
+			depth--
+			if depth == 0 && start >= 0 {
+				pairs = append(pairs, body[start:k+1])
+				start = -1
+			}
+			if depth < 0 {
+				k = len(body)
+			}
+		}
+	}
+	var res [][2]string
+	for idx, p := range pairs {
+		if idx >= len(o.Watch) {
+			break
+		}
+		// value = last s-expression of the pair
+		inner := strings.TrimSpace(p[1 : len(p)-1])
+		val := lastSexp(inner)
+		res = append(res, [2]string{o.Watch[idx].Name, strings.Join(strings.Fields(val), " ")})
+	}
+	return res
+}
+
+func lastSexp(s string) string {
+	s = strings.TrimSpace(s)
+	if strings.HasSuffix(s, ")") {
+		depth := 0
+		for k := len(s) - 1; k >= 0; k-- {
+			if s[k] == ')' {
+				depth++
+			} else if s[k] == '(' {
+				depth--
+				if depth == 0 {
+					return s[k:]
+				}
+			}
+		}
+	}
+	f := strings.Fields(s)
+	if len(f) == 0 {
+		return ""
+	}
+	return f[len(f)-1]
 }
